@@ -151,7 +151,7 @@ impl Prop for C16 {
         ]
     }
     fn strategy(&self, tier: Tier) -> Option<(BoxedStrategy<Case>, u32)> {
-        Some((calcexpr::sheet(), tier.pick(5_000, 300_000)))
+        Some((calcexpr::sheet(), tier.pick(40_000, 600_000)))
     }
     fn enumerate(&self, _tier: Tier) -> Vec<Case> {
         vec![]
